@@ -6,6 +6,7 @@
 import Fosite.Driver.Wire
 import Fosite.Model.Fault
 import Fosite.Model.Sched
+import Fosite.Model.Dispatch
 namespace Fosite.Driver
 open Fosite.Model
 
@@ -146,7 +147,26 @@ def parsePresented (n : Names) (s : String) : Presented :=
   | [name, "r"] => match n.resolve name with
     | some k => { sig := some k, exact := false }
     | none => { sig := none, exact := false }
+  -- leading white space: the signature part is still the stored one
+  | [name, "q"] => match n.resolve name with
+    | some k => { sig := some k, exact := false }
+    | none => { sig := none, exact := false }
+  -- "~s" (signature altered), "~p" (trailing white space: the signature part matches nothing)
   | _ => { sig := none, exact := false }
+
+def hexVal1 (c : Char) : Option Nat :=
+  if '0' ≤ c ∧ c ≤ '9' then some (c.toNat - '0'.toNat)
+  else if 'a' ≤ c ∧ c ≤ 'f' then some (c.toNat - 'a'.toNat + 10) else none
+
+/-- hex-encoded ASCII text (op "wire") -/
+def unhexAscii : List Char → Option (List Char)
+  | [] => some []
+  | a :: b :: rest => do
+    let x ← hexVal1 a
+    let y ← hexVal1 b
+    let t ← unhexAscii rest
+    pure (Char.ofNat (16 * x + y) :: t)
+  | _ => none
 
 def parseHint : String → Hint
   | "" => .none | "access_token" => .access | "refresh_token" => .refresh | _ => .other
@@ -238,6 +258,7 @@ structure HistState where
   names : Names := {}
   tx : Bool := false                       -- the store implements storage.Transactional (cfg tx=1)
   pending : List (Nat × Err) := []         -- fault plan for the next operation (op "fault")
+  wire : Option String := none             -- grant_type value on the wire for the next token request (op "wire")
   deriving Inhabited
 
 def parseFaultKind : String → Err
@@ -315,17 +336,50 @@ def jwtCallsView (line : String) : String :=
   | out :: calls :: rest => " || ".intercalate (out :: " ".intercalate ((calls.splitOn " ").map jwtKeyView) :: rest)
   | _ => line
 
+def hexOfString (s : String) : String :=
+  String.join (s.toUTF8.toList.map (fun b =>
+    let d (n : Nat) : Char := if n < 10 then Char.ofNat (48 + n) else Char.ofNat (87 + n)
+    String.ofList [d (b.toNat / 16), d (b.toNat % 16)]))
+
+/-- what an accepted authorization request echoes: its state and the redirect target.  A plain request echoes its
+    own parameters (the redirect URI defaults to the client's single registered one); a pushed request echoes the
+    PUSHED state and redirect URI, whatever is sent alongside the request_uri (C17, C13). -/
+def authzEcho (m : MState) (op : Op) (out : Out) : String :=
+  match out with
+  | .authz _ _ _ =>
+    -- the response mode of a request that names none: `query` for exactly `code`, `fragment` otherwise
+    let modeOf (rts : List String) : String := if rts == ["code"] then "query" else "fragment"
+    let (st, rd, mode) := match op with
+      | .authorize q =>
+        (q.state, (if q.redirect != "" then q.redirect else
+          match m.ss.clients.find? (fun c => c.id == q.clientId) with
+          | some c => c.redirects.headD ""
+          | none => ""), modeOf q.responseTypes)
+      | .authorizePar a =>
+        (match a.uri.bind (alookup m.ss.store.par) with
+         | some p => (p.state, (if p.redirect != "" then p.redirect else p.req.client.redirects.headD ""), modeOf p.responseTypes)
+         | none => ("", "", ""))
+      | _ => ("", "", "")
+    " st=" ++ hexOfString st ++ " rd=" ++ hexOfString rd ++ " mode=" ++ mode
+  | _ => ""
+
 /-- one line in, one line out -/
 def histStep (h : HistState) (line : String) : HistState × String :=
   match fields line with
   | ["fault", plan] =>
     let (names', txt) := h.names.rewrite ("ok ||  || " ++ renderDump h.m.ss.store)
     ({ h with pending := parsePlan plan, names := names' }, txt)
+  | ["wire", spec] =>
+    let (names', txt) := h.names.rewrite ("ok ||  || " ++ renderDump h.m.ss.store)
+    -- ("cid=…": another client_id in the body of a request that authenticates with HTTP Basic — the authenticated
+    --  client is the client of the request, so the model has nothing to change)
+    let w := if spec.startsWith "gt=" then (unhexAscii (spec.drop 3).toString.toList).map String.ofList else none
+    ({ h with wire := w, names := names' }, txt)
   | "par" :: sched :: opStrs =>
     let ops := opStrs.filterMap (fun o => parseOp h.names (o.splitOn parSep))
     if ops.length != opStrs.length || !(ops.all (fun op => (op.prog h.m).isSome)) then ({ h with pending := [] }, "bad-op") else
     let s := parRun h.m ops ((decList sched).filterMap String.toNat?)
-    let outs := s.thr.map (fun t => match t.out with | some o => renderOut o | none => "unfinished")
+    let outs := (s.thr.zip ops).map (fun (t, op) => match t.out with | some o => renderOut o ++ authzEcho h.m op o | none => "unfinished")
     let calls := (s.trace.filter (fun e => !e.2.1.quiet)).map (fun e => s!"t{e.1}:" ++ renderCall e.2)
     let m' := { h.m with ss := s.ss }
     let raw := "par " ++ " ;; ".intercalate outs ++ " || " ++ " ".intercalate calls ++ " || " ++ renderDump m'.ss.store
@@ -339,8 +393,15 @@ def histStep (h : HistState) (line : String) : HistState × String :=
       | "cfg" :: rest => ({ h.m with ss := { h.m.ss with devMark := parseBool (kv rest "devMark") } }, parseBool (kv rest "tx"))
       | _ => (h.m, h.tx)
     -- the plan applies to this operation only; storage-call indices are per operation
-    let (m', out, log) := stepWith { plan := planOf h.pending, tx := tx } m0 op
-    let raw := renderOut out ++ " || " ++ " ".intercalate (log.map renderCall) ++ " || " ++ renderDump m'.ss.store
+    let rc : RunCfg := { plan := planOf h.pending, tx := tx }
+    let (m', out, log) :=
+      match h.wire with
+      | some w =>
+        if ownGrantType op w then stepWith rc m0 op else
+        let r := run rc { ss := m0.ss } (noHandlerProg op.clientId)
+        ({ m0 with ss := r.1.ss }, r.2, r.1.log)
+      | none => stepWith rc m0 op
+    let raw := renderOut out ++ authzEcho m0 op out ++ " || " ++ " ".intercalate (log.map renderCall) ++ " || " ++ renderDump m'.ss.store
     let (names', txt) := h.names.rewrite raw
     ({ m := m', names := names', tx := tx, pending := [] }, if m'.cfg.jwtAccess then jwtCallsView txt else txt)
 
